@@ -50,6 +50,7 @@ class Contract:
     at: dict = field(default_factory=dict)     # first line of a statement (as printed by ast.unparse, prefix match) -> {'ghost': f(e) -> {name: Sym}, 'lemmas': f(e) -> [Bool]}:
                                                # before that statement runs, the ghost variables are assigned ($g.<name>) and the lemmas are proved in order in the current
                                                # context and then kept - the way to record a value that the code overwrites, or to cut a long argument at a program point
+    dead_returns: tuple = ()                   # boolean constants whose return the postcondition excludes (the path that returns them is expected to be infeasible)
     if_ordinals: bool = False                  # number loops inside `if` blocks separately (if<k>.<n>); off: they restart at <n> and may share an invariant with a top-level loop
     entry_lemmas: object = None                # f(o) -> [(name, [local axioms], Bool)]: consequences of the precondition, each proved *in isolation*
                                                # (from the precondition and the listed axioms only), then available to every later obligation
@@ -112,11 +113,18 @@ class Engine:
         t = coll.t
         if isinstance(t, TSet): return Select(coll.term, x.term)
         if isinstance(t, TBag): return Select(coll.term, x.term) > 0
-        if is_map(t): return Select(t.get(coll, 'dom').term, x.term)
+        if is_map(t): return Select(t.get(coll, 'dom').term, self.keyproj(x, t.key).term)
         if isinstance(t, TSeq):
             sm = getattr(self.w, 'seq_member', None)
             return sm(coll.term, x.term) if sm else Contains(coll.term, Unit(x.term))
         raise Unsupported(f'membership in {t}')
+
+    def keyproj(self, k, keytype):
+        """dict key of an object whose class compares and hashes by a projection (World.key_of: record type name -> f(sym) -> key value)"""
+        if k.t != keytype and getattr(k.t, 'name', None) in getattr(self.w, 'key_of', {}):
+            k2 = self.w.key_of[k.t.name](k)
+            if k2.t == keytype: return k2
+        return k
 
     def truthy(self, s):
         t = s.t
@@ -336,6 +344,7 @@ class Engine:
             raise Unsupported(f'slice (line {e.lineno})')
         k = self.ev(e.slice, st)
         if is_map(base.t):
+            k = self.keyproj(k, base.t.key)
             self.oblige(st, 'no KeyError', self.mem(base, k), e.lineno)
             return Sym(base.t.val, Select(base.t.get(base, 'val').term, k.term))
         if isinstance(base.t, TSeq) and k.t is TInt:
@@ -528,8 +537,8 @@ class Engine:
         if isinstance(t, TBag):
             if a == 'append':
                 v = args[0].term
-                if isinstance(t.elem, TSeq):
-                    # bags of sequences: a fresh bag characterised by monotone facts instead of an array store - most goals need `no smaller than before` only,
+                if isinstance(t.elem, TSeq) or (is_tuple(t.elem) and any(isinstance(ft, (TSet, TBag, TSeq)) for _, ft in t.elem.fields)):
+                    # bags of sequences (or of tuples holding a collection): a fresh bag characterised by monotone facts instead of an array store - most goals need `no smaller than before` only,
                     # and deciding whether two sequence-valued index terms are equal is what makes the solver unstable
                     new = t.fresh('appended').term; u = Const(fresh_name('bu'), t.elem.sort()); old_ = recv.term
                     st.pc.append(And(Select(new, v) == Select(old_, v) + 1, ForAll([u], Select(new, u) >= Select(old_, u), patterns=[Select(new, u)]),
@@ -630,6 +639,7 @@ class Engine:
             n0 = len(self.obls); base = self.ev(node.value, st); del self.obls[n0:]
             k = self.ev(node.slice, st)
             if is_map(base.t):
+                k = self.keyproj(k, base.t.key)
                 if val.t != base.t.val: raise Unsupported(f'map value {val.t} assigned, {base.t.val} declared')
                 nm = base.t.make(dom=Sym(TSet(base.t.key), Store(base.t.get(base, 'dom').term, k.term, True)),
                                  val=Sym(base.t.ftype('val'), Store(base.t.get(base, 'val').term, k.term, val.term)))
@@ -962,6 +972,7 @@ class Engine:
             new = {n: e_st.env['$param:' + n] for n, _ in c.params}
             for exc, cond in c.raises.items():
                 self.oblige(e_st, f'normal return excludes {exc}', Not(unwrap(cond(o))), fn.lineno)
+            if res.t is TNone and isinstance(c.ret, TVal) and c.ret.name in self.w.none_consts: res = Sym(c.ret, self.w.none_consts[c.ret.name])     # `return None` of an Optional[value]
             if c.ret is not TNone and res.t != c.ret and res.t is not TNone:
                 raise Unsupported(f'{key} returns {res.t}, contract says {c.ret}')
             if c.ensures is not None:
@@ -971,5 +982,7 @@ class Engine:
             for n, t in c.params:
                 if n not in c.modifies and not (isinstance(t, TVal) or t in (TBool, TInt)):
                     self.oblige(e_st, f'frame: {n} unchanged', old[n].term == new[n].term, fn.lineno)
-            self.oblige(e_st, 'canary', BoolVal(False), fn.lineno, canary=True)
+            # a contract may declare the return of a given constant dead (its postcondition says that the function does not return it): no vacuity alarm on that path
+            if not (res.t is TBool and any(is_true(res.term) == dv and (is_true(res.term) or is_false(res.term)) for dv in getattr(c, 'dead_returns', ()))):
+                self.oblige(e_st, 'canary', BoolVal(False), fn.lineno, canary=True)
         return self.obls
